@@ -22,4 +22,4 @@ For each change k = 1..{n} write, in {wt}/seed_out/k/ :
   - patch.diff : output of `git diff` for that change alone (apply it on a clean tree; revert with `git checkout -- tangelo` before making the next change),
   - demo.py : a small standalone program using only public Tangelo calls (plus numpy) that exits 0 on the unchanged library and exits 1 (printing what is wrong) with the change applied; run it both ways and record the outputs,
   - meta.json : {{"property": "{pid}", "summary": "<one sentence: what was changed>", "needs": "<what specific input/sequence/draw it needs in order to manifest>", "tests_run": "<the pytest command(s) you ran and their pass/fail counts with the change>", "demo_without": "<exit code/output on clean tree>", "demo_with": "<exit code/output with the change>"}}.
-Leave the worktree clean (git checkout -- tangelo) at the end; do not commit anything. In your final answer list the {n} changes in two lines each. Do not run `git worktree` commands. The machine is shared: do not use more than 4 pytest workers.""")
+Leave the worktree clean (git checkout -- tangelo) at the end; do not commit anything. In your final answer list the {n} changes in two lines each. Do not run `git worktree` or `git stash` commands (the stash is shared between worktrees; use `git diff > file`, `git checkout -- tangelo`, `git apply file`). The machine is shared: do not use more than 4 pytest workers.""")
